@@ -28,8 +28,8 @@ Payload(k, small) == CASE k = "instance" -> IF small THEN SmallInst ELSE DefInst
 NoAnnI == [title |-> <<>>, license |-> <<>>, dataset |-> <<>>, authors |-> <<>>, variables |-> <<>>, constraints |-> <<>>, created |-> <<>>, other |-> <<>>]
 FullAnnI == [title |-> <<"my title">>, license |-> <<"MIT">>, dataset |-> <<"ds">>, authors |-> << <<"Ann Author", "Bob B.">> >>, variables |-> <<3>>, constraints |-> <<0>>,
              created |-> <<"2024-05-01T12:30:45Z">>, other |-> << <<"org.example.key", "value one">>, <<"x", "y">> >>]
-\* annotation values may legally be empty strings
-EmptyAnnI == [title |-> <<"">>, license |-> <<"MIT">>, dataset |-> <<"">>, authors |-> <<>>, variables |-> <<0>>, constraints |-> <<>>,
+\* annotation values may legally be empty strings; author names are returned exactly as set (surrounding blanks included)
+EmptyAnnI == [title |-> <<"">>, license |-> <<"MIT">>, dataset |-> <<"">>, authors |-> << <<" Carol C. ", "D  E", " ">> >>, variables |-> <<0>>, constraints |-> <<>>,
               created |-> <<>>, other |-> << <<"org.ommx.user.comment", "">> >>]
 NoAnnS == [start |-> <<>>, end |-> <<>>, instance |-> <<>>, solver |-> <<>>, parameters |-> <<>>, other |-> <<>>]
 FullAnnS == [start |-> <<"2024-05-01T12:30:45Z">>, end |-> <<"2024-05-01T12:31:00Z">>,
